@@ -149,7 +149,7 @@ fn judge_at(c: &Case, h: &[u8], stream: &Vec<u8>, st: &mut Stats) -> Verdict {
             let _ = imp::auto(&other);
         }
     }
-    // ---- every proper prefix
+    // ---- every proper prefix (the statement demands a result flagged incomplete there: a panic is none)
     for k in 0..h.len() {
         let p = &h[..k];
         let fail = |entry: &str, obs: String| {
@@ -165,25 +165,25 @@ fn judge_at(c: &Case, h: &[u8], stream: &Vec<u8>, st: &mut Stats) -> Verdict {
             let r = imp::v1_bytes(p);
             match &r {
                 Ok(x) if x.is_err() && incomplete_flags(x) => {}
-                Err(_) => {} // C03
+                Err(p) => return fail("v1::try_from(&[u8])", format!("panic: {}", p)),
                 Ok(x) => return fail("v1::try_from(&[u8])", format!("{:?} [incomplete={}]", x, x.is_incomplete())),
             }
             let s = std::str::from_utf8(p).unwrap();
             let r = imp::v1_str(s);
             match &r {
                 Ok(x) if x.is_err() && incomplete_flags(x) => {}
-                Err(_) => {}
+                Err(p) => return fail("v1::try_from(&str)", format!("panic: {}", p)),
                 Ok(x) => return fail("v1::try_from(&str)", format!("{:?} [incomplete={}]", x, x.is_incomplete())),
             }
             // the two str::parse routes are text entry points of this version as well
             match &imp::v1_fromstr_header(s) {
                 Ok(x) if x.is_err() && incomplete_flags(x) => {}
-                Err(_) => {}
+                Err(p) => return fail("str::parse::<v1::Header>", format!("panic: {}", p)),
                 Ok(x) => return fail("str::parse::<v1::Header>", format!("{:?} [incomplete={}]", x, x.is_incomplete())),
             }
             match &imp::v1_fromstr_addr(s) {
                 Ok(x) if x.is_err() && incomplete_flags(x) => {}
-                Err(_) => {}
+                Err(p) => return fail("str::parse::<v1::Addresses>", format!("panic: {}", p)),
                 Ok(x) => return fail("str::parse::<v1::Addresses>", format!("{:?} [incomplete={}]", x, x.is_incomplete())),
             }
             if !st.frozen {
@@ -193,14 +193,14 @@ fn judge_at(c: &Case, h: &[u8], stream: &Vec<u8>, st: &mut Stats) -> Verdict {
             let r = imp::v2_parse(p);
             match &r {
                 Ok(x) if x.is_err() && incomplete_flags(x) => {}
-                Err(_) => {}
+                Err(p) => return fail("v2::try_from(&[u8])", format!("panic: {}", p)),
                 Ok(x) => return fail("v2::try_from(&[u8])", format!("{:?} [incomplete={}]", x.as_ref().map(|h| h.len()), x.is_incomplete())),
             }
         }
         let r = imp::auto(p);
         match &r {
             Ok(x) if incomplete_flags(x) && !auto_is_ok(x) => {}
-            Err(_) => {}
+            Err(p) => return fail("HeaderResult::parse", format!("panic: {}", p)),
             Ok(x) => return fail("HeaderResult::parse", format!("{} [incomplete={}]", imp::short(&format!("{:?}", x)), x.is_incomplete())),
         }
     }
